@@ -12,6 +12,9 @@ theorem pivots_canonical : Generated.allClasses.all pivotsCanonical = true := by
 /-- `first_token` / `last_token` are the canonical chains and always yield a token (C05). -/
 theorem first_last_canonical : Generated.allClasses.all firstLastCanonical = true := by decide +kernel
 
+/-- Pivot properties are recomputed on every use, never cached (C03/C06). -/
+theorem pivots_not_cached : Generated.allClasses.all pivotsNotCached = true := by decide +kernel
+
 theorem pivots_total : Generated.allClasses.all pivotsTotal = true := by decide +kernel
 
 /-- `clone` passes every field and `indent_by` (C11). -/
